@@ -11,6 +11,11 @@ NOTES = ('All checks: ./check <ID> --tier quick|thorough; VERIF_SEED selects the
 NOT_APPLICABLE = {}
 EXPL = 'exploration'
 CHECKS = {
+    'C01': dict(
+        category=EXPL,
+        technique='Hypothesis-generated RPC histories vs sequential reference model (model-based testing) + history invariants',
+        text='Generated histories of all 16 RPCs (+GetOperation) with concrete small ids (existing and missing), all argument variants and both datastores are executed against a real VizierServicer; after every call the response, the error class, the full ListStudies/GetStudy/ListTrials snapshot and model-free lifecycle invariants are compared with an independent sequential reference model; erroring calls must leave the snapshot byte-identical; requests and responses are scribbled over after use to expose pass-by-reference. Sampling of histories (thousands per run), no exhaustiveness claim.',
+        note='trusts harness/service_model.py (second implementation written from proto comments/docstrings; documented decisions in DESIGN.md C01), the deterministic harness policy, timestamp blanking'),
     'C10': dict(
         category=EXPL,
         technique='exhaustive namespace enumeration + Hypothesis op-list histories vs dict reference model',
